@@ -34,7 +34,16 @@ def parse_snapshot(snap, plens):
     state = "(mkmgr [%s] [%s] [%s] %s %s %s)" % (
         ";".join(coq_status(s) for s in sts), ";".join(peers), ";".join("(%s, [])" % c for c in cands),
         f["r"], "true" if f["x"] == "1" else "false", plens)
-    sp = [] if f["sp"] == "-" else [{"tracker": "SpTracker", "extractor": "SpExtractor", "peer": "(SpPeer 0)"}[x] for x in f["sp"].split(",")]
+    # "peer:K" / "peer:K:BAD": a connection task spawned for address K; BAD = it was not configured with the session's own
+    # id, the candidate's peer id, the torrent's info hash and piece count
+    sp, args_ok = [], True
+    for x in ([] if f["sp"] == "-" else f["sp"].split(",")):
+        if x.startswith("peer:"):
+            t = x.split(":")
+            sp.append("(SpPeer %s)" % t[1])
+            args_ok = args_ok and len(t) == 2
+        else:
+            sp.append({"tracker": "SpTracker", "extractor": "SpExtractor"}[x])
     bc = []
     if f["bc"] != "-":
         for b in f["bc"].split(","):
@@ -43,7 +52,7 @@ def parse_snapshot(snap, plens):
             else:
                 m = [] if len(b) == 1 else [x.split("=") for x in b[1:].split("+")]
                 bc.append("(BOwnState [%s])" % ";".join("(%s, %s)" % (a, "true" if c == "1" else "false") for a, c in m))
-    return state, "[%s]" % ";".join(rx), "[%s]" % ";".join(bc), "[%s]" % ";".join(sp)
+    return state, "[%s]" % ";".join(rx), "[%s]" % ";".join(bc), "[%s]" % ";".join(sp), ("true" if args_ok else "false")
 
 
 def rq(t):
@@ -162,15 +171,15 @@ class MgrBase:
             if res == "PANIC":
                 # the op that panicked is the one after the last completed step
                 op = ops[i] if i < len(ops) else "tick"
-                steps.append("(mkstep %s XPanic %s [] [] [])" % (coq_op(op, "ok", n), "(mkmgr [] [] [] 0 false [])"))
+                steps.append("(mkstep %s XPanic %s [] [] [] true)" % (coq_op(op, "ok", n), "(mkmgr [] [] [] 0 false [])"))
                 break
-            state, rx, bc, sp = parse_snapshot(snap, plens)
+            state, rx, bc, sp, args_ok = parse_snapshot(snap, plens)
             r = coq_result(res)
             if isinstance(r, tuple):   # bitfield reply: decode the bits for n pieces
                 raw = r[1]
                 bs = [(raw[j // 8] >> (7 - j % 8)) & 1 == 1 for j in range(n)] if len(raw) * 8 >= n else []
                 r = "(XOk (RBitfield %s))" % coq_boollist(bs)
-            steps.append("(mkstep %s %s %s %s %s %s)" % (coq_op(ops[i], res, n), r, state, rx, bc, sp))
+            steps.append("(mkstep %s %s %s %s %s %s %s)" % (coq_op(ops[i], res, n), r, state, rx, bc, sp, args_ok))
         init = "(mkmgr [%s] [] [] 0 false %s)" % (";".join(["Missing"] * n), plens)
         return "CMgr %s %s [%s]" % ("true" if mode == "prod" else "false", init, ";\n ".join(steps))
 
